@@ -83,3 +83,16 @@ Theorem C16_tracker_from_source : forall st o,
   Proofs.TrackerIRTie.run_generated st o = Some (Model.Tracker.tstep st o).
 Proof. exact Proofs.TrackerIRTie.tracker_from_source. Qed.
 Print Assumptions C16_tracker_from_source.
+
+(* ---------- the cleanups do not depend on Go's map iteration order ----------
+   Both cleanups are  m.Iterate(func(k, v) bool { if <stale> { m.DeleteUnsafe(k) }; return true }).  With the
+   GenericSyncMap methods regenerated from the source (Gen/SyncMapProg.v, Proofs/SyncMapIRTie.v): for EVERY order in
+   which Go enumerates the map, exactly the entries satisfying the condition are removed and the others are kept —
+   the filter the model (and the generated programs' SDeleteWhere) use. *)
+From AM Require Lib.Assoc Model.SyncMapIR Proofs.SyncMapIRTie.
+Theorem C16_cleanup_is_order_independent :
+  forall (K V : Type) (eqb : K -> K -> bool), (forall a b, reflect (a = b) (eqb a b)) ->
+  forall c ord (m : list (K * V)), NoDup (Lib.Assoc.akeys m) -> incl (Lib.Assoc.akeys m) ord ->
+    Model.SyncMapIR.iter K V eqb (Proofs.SyncMapIRTie.del_cb K V eqb c) ord m = filter (fun kv => negb (c (fst kv) (snd kv))) m.
+Proof. exact Proofs.SyncMapIRTie.delete_where_is_filter. Qed.
+Print Assumptions C16_cleanup_is_order_independent.
